@@ -52,7 +52,9 @@ func runC13(c *rules.Ctx) {
 	c.CallArg(M+"Pow", "osmomath.PowApprox", 2, "@osmomath.powPrecision", "…to the documented power precision")
 	c.CallArg(M+"Pow", "sdkmath.LegacyDec.Power", 1, "sdkmath.LegacyDec.TruncateInt64({IPART})", "the integer part of the exponent is raised exactly")
 	c.Returns(M+"Pow", 0, "sdkmath.LegacyDec.Power(base,_) | sdkmath.LegacyDec.MulMut(sdkmath.LegacyDec.Power(base,_), osmomath.PowApprox(base,_,_))", "the result is integer power × fractional power", "")
-	c.OnlyWhenReturn(M+"Pow", "sdkmath.LegacyDec.Power(base,_)", "sdkmath.LegacyDec.IsZero(sdkmath.LegacyDec.Sub(exp, {IPART}))", "the series is skipped only for an integral exponent")
+	c.OnlyWhen(M+"Pow", "osmomath.PowApprox", "not(sdkmath.LegacyDec.IsZero(sdkmath.LegacyDec.Sub(exp, {IPART})))", "the series is evaluated only for a non-integral exponent")
+	c.ReachedWhen(M+"Pow", "osmomath.PowApprox", "not(sdkmath.LegacyDec.IsZero(sdkmath.LegacyDec.Sub(exp, {IPART})))", "…and always for one (the series is skipped only for an integral exponent)")
+	c.HasCall(M+"Pow", "sdkmath.LegacyDec.MulMut", []string{"sdkmath.LegacyDec.Power(base,_)", "osmomath.PowApprox(base,_,_)"}, false, "the fractional power multiplies the integer power", "")
 	// significant-figure rounding: the kept digits are rounded to nearest (half a unit at most)
 	c.CallArg(M+"SigFigRound", "sdkmath.LegacyDec.QuoIntMut", 0, "sdkmath.Int.ToLegacyDec(sdkmath.LegacyDec.RoundInt(sdkmath.LegacyDec.MulInt(_, tenToSigFig)))", "the numerator is the scaled value rounded to the nearest integer (half-even), so the result moves by at most half a unit of the last kept digit")
 	c.CallArg(M+"SigFigRound", "sdkmath.LegacyDec.QuoIntMut", 1, "sdkmath.Int.Mul(tenToSigFig, sdkmath.LegacyDec.TruncateInt(sdkmath.LegacyDec.Power(sdkmath.Int.ToLegacyDec(sdkmath.NewInt(10)), _)))", "…and is scaled back by 10^sigfig · 10^k")
